@@ -116,6 +116,14 @@ strlist_const("cloc_ignore_dirs", "pkg/application/cloc/cloc_app.go",
 strlist_const("git_log_args", "cmd/git.go",
               r"historyArgs := \[\]string\{(.*?)\}\s*$", "argument vector of the git log invocation")
 
+import json as _json
+if not errors:
+    _m = re.search(r"historyArgs := \[\]string\{(.*?)\}\s*$", read("cmd/git.go"), re.M | re.S)
+    _jp = os.path.join(os.path.dirname(OUT), "constants.json")
+    _jt = _json.dumps({"git_log_args": go_string_list(_m.group(1))})
+    if not os.path.exists(_jp) or open(_jp).read() != _jt:
+        open(_jp, "w").write(_jt)
+
 if errors:
     sys.stderr.write("gen_constants: BROKEN TIE (constants not found in the Go sources):\n")
     for e in errors:
